@@ -10,6 +10,7 @@
 EXTENDS Sampling, Json
 
 CONSTANTS Depth,
+          SortFirst,  \* TRUE: groups are interchangeable, so only first intervals with ascending volumes
           OnlyEnds    \* TRUE: group 1 is silent except in the first and the last interval, the others are
                       \* busy in the middle intervals (TTL histories)
 VARIABLE hist
@@ -23,6 +24,7 @@ RInit == CInit /\ hist = <<>>
 RNext == \E vol \in [Groups -> Vols] :
             /\ (OnlyEnds /\ iv # 0 /\ iv # Depth - 1) => vol[1] = 0
             /\ (OnlyEnds /\ iv >= 2 /\ iv <= Depth - 4) => \A g \in Groups \ {1} : vol[g] = MaxVol
+            /\ (SortFirst /\ iv = 0) => \A g \in Groups : \A h \in Groups : g < h => vol[g] <= vol[h]
             /\ EndInterval(vol)
             /\ hist' = Append(hist, [vol |-> vol, after |-> Obs])
 RSpec == RInit /\ [][RNext]_rvars
